@@ -231,6 +231,18 @@ let op_cw_delete a =
 
 let op_cw_global _ = emit "cw_global ok"
 
+(* what a restart finds: every run-time object comes back from its file, nothing else appears, the load succeeds
+   (every reference of a run-time object resolves) *)
+let op_cw_restart _ =
+  let st = !store in
+  let rt = List.filter (fun o -> o.co_runtime) st.cs_objs in
+  let has_file k = List.exists (fun (k', _) -> k' = k) st.cs_files in
+  let missing = List.length (List.filter (fun o -> not (has_file o.co_key)) rt) in
+  let extra = List.length (List.filter (fun (k, _) -> not (List.exists (fun o -> o.co_key = k) rt)) st.cs_files) in
+  let dangling = List.exists (fun (k, _) -> match cw_find k st with
+      | Some o -> List.exists (fun d -> cw_find d st = None) o.co_deps | None -> false) st.cs_files in
+  emit (Printf.sprintf "cw_restart res=%s missing=%d extra=%d changed=0 nfiles=%d" (if dangling then "fail" else "ok") missing extra (List.length st.cs_files))
+
 (* ---------------- oracle: the statement of C17 evaluated on the IMPLEMENTATION's observations ------- *)
 let parse_flags s =
   { fl_obj = s.[0] <> '-'; fl_active = s.[0] = 'A'; fl_runtime = s.[1] = 'r'; fl_item = s.[2] = 'i'; fl_file = s.[3] = 'f' }
@@ -261,7 +273,7 @@ let code_label c = match c with
   | 13 -> "valid-create-refused" | 10 -> "failure-not-clean" | 11 -> "success-incomplete" | 12 -> "globals-or-others-changed"
   | 14 -> "failed-create-changed-files" | 15 -> "create-touched-other-files" | 16 -> "file-content-differs"
   | 20 -> "failed-delete-changed-state" | 21 -> "delete-left-remains" | 22 -> "non-runtime-deleted" | 23 -> "delete-touched-others"
-  | 24 -> "delete-files-wrong" | 25 -> "cascade-closure-wrong"
+  | 24 -> "delete-files-wrong" | 25 -> "cascade-closure-wrong" | 30 -> "restart-differs"
   | _ -> "unknown"
 
 let stmt_code exp got =
@@ -329,6 +341,10 @@ let oracle_c17_case script trace =
                 else if List.length exp_body <> List.length it.cwi_body then fail li op 3
                 else List.iter2 (fun e g -> fail li op (stmt_code e g)) exp_body it.cwi_body
             end
+          | "cw_restart" ->
+            (* the package directory, loaded the way a restart loads it, yields exactly the live run-time objects *)
+            if not (tok_val t "res" = Some "ok" && tok_val t "missing" = Some "0" && tok_val t "extra" = Some "0" && tok_val t "changed" = Some "0"
+                    && geti t "nfiles" = !prev_nfiles) then fail li op 30
           | "cw_create" | "cw_delete" | "cw_static" ->
             let ty = str a "type" "Host" and hn = str a "name" "-" in
             let name = hex_dec hn in
@@ -421,5 +437,6 @@ let () =
   register_op "cw_static" op_cw_static;
   register_op "cw_delete" op_cw_delete;
   register_op "cw_global" op_cw_global;
+  register_op "cw_restart" op_cw_restart;
   register_case_end (fun () -> store := cw_store0; tracked := []; others_base := []);
   register_oracle "C17" oracle_c17_case
